@@ -102,7 +102,7 @@ func (V *Verifier) useSpecFun(fc *FuncCtx, sf *SpecFunc, sym string, sorts []str
 	for _, p := range sf.Params {
 		if p.Type == "bytes" {
 			params = append(params, "(p_"+p.Name+" (Array Int Int))", "(p_"+p.Name+"_len Int)")
-			bind[p.Name] = mkString(nil, "p_"+p.Name, "p_"+p.Name+"_len")
+			bind[p.Name] = mkString(nil, "p_"+p.Name, "0", "p_"+p.Name+"_len")
 			continue
 		}
 		srt := specSort(p.Type)
@@ -227,50 +227,116 @@ func (V *Verifier) solveOne(i int, ob *Obligation, opts SolveOpts) {
 		defer os.Remove(file)
 	}
 	want := ob.Expect
-	agree := 0
-	var outputs []string
-	for _, sp := range solvers {
-		v, out, secs := runSolver(sp, file, opts.TimeoutS)
+	if want == "sat" {
+		// vacuity cover: only a refutation (unsat) is an alarm; quantified preconditions often answer unknown
+		v, out, secs := runSolver(solvers[0], file, 3)
 		ob.Time += secs
-		outputs = append(outputs, fmt.Sprintf("[%s %.2fs] %s", sp.name, secs, strings.TrimSpace(firstLines(out, 3))))
-		if v == want {
-			agree++
-			if ob.Solver == "" {
-				ob.Solver = sp.name
-			} else {
-				ob.Solver += "+" + sp.name
+		ob.Output = fmt.Sprintf("[%s %.2fs] %s", solvers[0].name, secs, strings.TrimSpace(firstLines(out, 2)))
+		if v == "unsat" {
+			ob.Status = "failed"
+			ob.Solver = solvers[0].name
+			return
+		}
+		ob.Status = "proved"
+		ob.Solver = solvers[0].name
+		if v != "sat" {
+			ob.Solver += "(not-refuted)"
+		}
+		return
+	}
+	var outputs []string
+	type ans struct {
+		name, v, out string
+		secs      float64
+	}
+	conclusive := func(v string) bool { return v == "sat" || v == "unsat" }
+	finish := func(a ans) {
+		if a.v == want {
+			ob.Status = "proved"
+			ob.Solver = a.name
+		} else {
+			ob.Status = "failed"
+			ob.Solver = a.name
+			if a.v == "sat" {
+				mfile := file + ".model.smt2"
+				os.WriteFile(mfile, []byte(V.vcText(ob, true)), 0o644)
+				for _, sp := range solvers {
+					if sp.name == a.name {
+						_, mout, _ := runSolver(sp, mfile, opts.TimeoutS)
+						ob.Model = parseGetValue(mout, ob.Inputs)
+						outputs = append(outputs, "model: "+firstLines(mout, 40))
+					}
+				}
+				os.Remove(mfile)
 			}
-			if !opts.TwoSolver || agree >= 2 || want == "sat" {
+		}
+		ob.Output = strings.Join(outputs, "\n")
+	}
+	// stage 1: the fastest solver with a short budget
+	quick := 2
+	if opts.TimeoutS < quick {
+		quick = opts.TimeoutS
+	}
+	v, out, secs := runSolver(solvers[0], file, quick)
+	ob.Time += secs
+	outputs = append(outputs, fmt.Sprintf("[%s %.2fs] %s", solvers[0].name, secs, strings.TrimSpace(firstLines(out, 3))))
+	first := ans{solvers[0].name, v, out, secs}
+	if conclusive(v) && !(opts.TwoSolver && v == want && want == "unsat") {
+		finish(first)
+		return
+	}
+	// stage 2: the whole portfolio in parallel with the full budget
+	ch := make(chan ans, len(solvers))
+	for _, sp := range solvers {
+		go func(sp solverSpec) {
+			v, out, secs := runSolver(sp, file, opts.TimeoutS)
+			ch <- ans{sp.name, v, out, secs}
+		}(sp)
+	}
+	var got []ans
+	agree := map[string]bool{}
+	if conclusive(first.v) && first.v == want {
+		agree[first.name] = true
+	}
+	for range solvers {
+		a := <-ch
+		ob.Time += a.secs
+		outputs = append(outputs, fmt.Sprintf("[%s %.2fs] %s", a.name, a.secs, strings.TrimSpace(firstLines(a.out, 3))))
+		got = append(got, a)
+		if !conclusive(a.v) {
+			continue
+		}
+		if a.v == want {
+			agree[a.name] = true
+			if !opts.TwoSolver || len(agree) >= 2 || want == "sat" {
+				var names []string
+				for n := range agree {
+					names = append(names, n)
+				}
+				sortStrings(names)
 				ob.Status = "proved"
+				ob.Solver = strings.Join(names, "+")
 				ob.Output = strings.Join(outputs, "\n")
 				return
 			}
 			continue
 		}
-		if (v == "sat" && want == "unsat") || (v == "unsat" && want == "sat") {
-			if agree > 0 {
-				ob.Status = "solver-disagreement"
-				ob.Output = strings.Join(outputs, "\n")
-				return
-			}
-			ob.Status = "failed"
-			ob.Solver = sp.name
-			if v == "sat" {
-				// fetch the model for the inputs
-				mfile := file + ".model.smt2"
-				os.WriteFile(mfile, []byte(V.vcText(ob, true)), 0o644)
-				_, mout, _ := runSolver(sp, mfile, opts.TimeoutS)
-				os.Remove(mfile)
-				ob.Model = parseGetValue(mout, ob.Inputs)
-				outputs = append(outputs, "model: "+firstLines(mout, 40))
-			}
+		if len(agree) > 0 {
+			ob.Status = "solver-disagreement"
 			ob.Output = strings.Join(outputs, "\n")
 			return
 		}
+		finish(a)
+		return
 	}
-	if agree > 0 {
-		// one solver proved it, the others were inconclusive
+	if len(agree) > 0 {
+		var names []string
+		for n := range agree {
+			names = append(names, n)
+		}
+		sortStrings(names)
 		ob.Status = "proved"
+		ob.Solver = strings.Join(names, "+")
 		ob.Output = strings.Join(outputs, "\n")
 		return
 	}
